@@ -25,8 +25,8 @@ pub fn def() -> CheckDef {
     CheckDef {
         id: "C03",
         level: "exploration",
-        runs_quick: 150_000,
-        runs_thorough: 3_000_000,
+        runs_quick: 250_000,
+        runs_thorough: 5_000_000,
         rule: "seeded histories on cfb_mode/cfb8 Encryptor/Decryptor and OfbCore (as block encryptor, decryptor, keystream core), on the AsyncStreamCipher one-shots with a partial tail, on BufEncryptor/BufDecryptor with arbitrary chunking and state export/import, and on the Ofb byte stream; harness cipher with both directions or encrypt-only (block sizes 1,2,3,8,16,17,255; width per call from {1,2,3,5,8}) or AES-128/Magma/BelT; compared step by step with the reference recurrences; seam trace must contain no decrypt-direction block. distinct = distinct (mode, front end, block size, cipher, policy, op-kind/form/size-class sequence); non-trivial = processed >= 1 byte",
         required_probes: &["par_groups_then_tail", "bs1", "bs255", "enc_only_cipher", "async_partial_tail", "buf_mid_block_piece", "buf_long_call", "buf_restart_mid_block", "ofb_stream_partial", "cfb8_bs_not_16", "script_call"],
         r#gen,
